@@ -217,7 +217,21 @@ def adjudicate(model, feed: dict, exposed: list, fails: list[dict], st: dict) ->
     return kept
 
 
-def observe(args: dict, exposed: list, rng, sizes, max_inst) -> dict:
+def feed_to_json(feed: dict) -> dict:
+    return {k: {"e": L.elem_name(a.dtype), "s": list(a.shape), "data": np.asarray(a).reshape(-1).tolist()} for k, a in feed.items()}
+
+
+def feed_from_json(j: dict) -> dict:
+    out = {}
+    for k, v in j.items():
+        dt = object if v["e"] == "str" else L.ELEM[v["e"]]
+        out[k] = np.array(v["data"], dtype=dt).reshape(v["s"])
+    return out
+
+
+def observe(args: dict, exposed: list, rng, sizes, max_inst, extra_feeds=(), fix_feed=None) -> dict:
+    """`extra_feeds`: feeds to run before the generated ones (a replay's recorded input);
+    `fix_feed(feed)`: lets a caller overwrite inputs whose values must be meaningful."""
     st = {"rejected": False, "runs": 0, "refused": 0, "checked": 0, "fails": []}
     exposed = [v for v in exposed if v.type is not None and "other" not in (L.ty_to_json(v.type) or {})]
     # a Var may be exposed once
@@ -235,7 +249,10 @@ def observe(args: dict, exposed: list, rng, sizes, max_inst) -> dict:
         st["refused"] += 1
         st["load_error"] = f"{type(e).__name__}: {str(e)[:300]}"
         return st
-    for feed in feeds_for(args, rng, sizes, max_inst):
+    generated = feeds_for(args, rng, sizes, max_inst)
+    if fix_feed is not None:
+        generated = [fix_feed(f) for f in generated]
+    for feed in list(extra_feeds) + generated:
         st["runs"] += 1
         try:
             res = sess.run(None, feed)
@@ -249,56 +266,48 @@ def observe(args: dict, exposed: list, rng, sizes, max_inst) -> dict:
         st["checked"] += n
         for f in fails:
             if not any(g["key"] == f["key"] for g in st["fails"]):
+                f["feed"] = feed_to_json(feed)
                 st["fails"].append(f)
     return st
 
 
 # ----------------------------------------------------------------------------- single operators
-def run_single(case: dict, rng, sizes, max_inst: int) -> dict:
+def run_single(case: dict, rng, sizes, max_inst: int, extra_feeds=()) -> dict:
+    """One operator applied to fresh arguments of the given types. With `case["erase"]` the first
+    input first goes through `Reshape(x, s)` with a runtime shape tensor `s` (fed with x's own shape),
+    which makes its type rank-unknown without changing the value."""
+    import spox.opset.ai.onnx.v17 as op17
     from spox._graph import arguments_dict
 
     op = L.OPS[case["op"]]
     tys = case["in"]
     try:
-        args = arguments_dict(**{n: L.ty_from_json(t) for n, t in zip(op.inputs, tys)})
+        decl = {n: L.ty_from_json(t) for n, t in zip(op.inputs, tys)}
+        if case.get("erase"):
+            decl["shape__"] = L.ty_from_json({"e": "i64", "s": ["K"]})
+        args = arguments_dict(**decl)
+        ins = [args[n] for n in op.inputs]
         shapes = [t["s"] for t in tys]
         concrete = [[d if isinstance(d, int) else 2 for d in s] for s in shapes]
         with warnings.catch_warnings():
             warnings.simplefilter("ignore")
-            out = op.ctor()(*args.values(), **op.kwargs(case["attrs"], concrete))
+            if case.get("erase"):
+                ins[0] = op17.reshape(ins[0], args["shape__"])
+            out = op.ctor()(*ins, **op.kwargs(case["attrs"], concrete))
     except Exception:  # noqa: BLE001
         return {"rejected": True, "runs": 0, "refused": 0, "checked": 0, "fails": []}
     outs = list(out) if isinstance(out, (tuple, list)) else [out]
-    if case["op"] in ("ArrayFeatureExtractor", "OneHot", "Compress"):
-        return _observe_with_feed(op, args, outs, rng, sizes, max_inst)
-    return observe(args, outs, rng, sizes, max_inst)
 
+    def fix_feed(feed: dict) -> dict:
+        # secondary inputs must hold meaningful values (indices, depth, condition)
+        if case["op"] in ("ArrayFeatureExtractor", "OneHot", "Compress"):
+            vals_in = [{"e": L.elem_name(feed[n].dtype), "s": list(feed[n].shape)} for n in op.inputs]
+            feed.update(dict(zip(op.inputs, op.feed(rng, vals_in))))
+        if case.get("erase"):
+            feed["shape__"] = np.array(feed[op.inputs[0]].shape, dtype=np.int64)
+        return feed
 
-def _observe_with_feed(op, args, outs, rng, sizes, max_inst) -> dict:
-    """Operators whose secondary inputs must hold meaningful values (indices, depth, condition)."""
-    st = {"rejected": False, "runs": 0, "refused": 0, "checked": 0, "fails": []}
-    try:
-        m = build_exposed(args, outs)
-        sess = _session(m.SerializeToString())
-    except Exception:  # noqa: BLE001
-        st["refused"] += 1
-        return st
-    for feed in feeds_for(args, rng, sizes, max_inst):
-        vals_in = [{"e": L.elem_name(a.dtype), "s": list(a.shape)} for a in feed.values()]
-        feed = dict(zip(feed.keys(), op.feed(rng, vals_in)))
-        st["runs"] += 1
-        try:
-            res = sess.run(None, feed)
-        except Exception:  # noqa: BLE001
-            st["refused"] += 1
-            continue
-        fails, n = judge(outs, [L.val_of(r) for r in res], {k: list(a.shape) for k, a in feed.items()})
-        fails = adjudicate(m, feed, outs, fails, st)
-        st["checked"] += n
-        for f in fails:
-            if not any(g["key"] == f["key"] for g in st["fails"]):
-                st["fails"].append(f)
-    return st
+    return observe(args, outs, rng, sizes, max_inst, extra_feeds=extra_feeds, fix_feed=fix_feed)
 
 
 # ----------------------------------------------------------------------------- generated programs
@@ -357,7 +366,7 @@ class Gen:
         choices = ["neg", "identity", "add_self", "cast"]
         if e == "f32":
             choices += ["relu", "binarizer"]
-            if r is not None and r >= 1:
+            if r is None or r >= 1:
                 choices += ["scaler", "imputer"]
             if r in (1, 2):
                 choices += ["normalizer"]
@@ -615,13 +624,13 @@ class Gen:
         return self
 
 
-def run_program(case: dict, sizes, max_inst: int) -> dict:
+def run_program(case: dict, sizes, max_inst: int, extra_feeds=()) -> dict:
     g = Gen(case["seed"], case["size"])
     try:
         g.build()
     except Exception as e:  # noqa: BLE001
         return {"build_failed": True, "error": f"{type(e).__name__}: {str(e)[:200]}", "fails": [], "refused": 0, "ops": g.ops}
-    st = observe(g.args, g.exposed, random.Random(case["seed"] ^ 0x5EED), sizes, max_inst)
+    st = observe(g.args, g.exposed, random.Random(case["seed"] ^ 0x5EED), sizes, max_inst, extra_feeds=extra_feeds)
     return {
         "runs": st["runs"], "refused": st["refused"], "vars_checked": st["checked"], "fails": st["fails"], "ops": g.ops,
         "body_vars_exposed": g.body_exposed, "text": "; ".join(g.text), "load_error": st.get("load_error"),
